@@ -762,6 +762,7 @@ func c09SharedCase(t *testing.T, out *zzverif.Out, rng *zzverif.Rng, dir, tag st
 	defer func() { http.DefaultTransport = old }()
 	var errA, errB error
 	hung := false
+	hangs := "" // which push did not return by itself (part of the L1 observation)
 	synctest.Test(t, func(t *testing.T) {
 		reg.gate = make(chan string, 1)
 		ctxA, cancelA := context.WithCancel(context.Background())
@@ -789,11 +790,12 @@ func c09SharedCase(t *testing.T, out *zzverif.Out, rng *zzverif.Rng, dir, tag st
 		default:
 			reg.gate <- "go"
 		}
-		for _, d := range []chan struct{}{doneA, doneB} {
+		for i, d := range []chan struct{}{doneA, doneB} {
 			select {
 			case <-d:
 			case <-time.After(30 * time.Minute): // fake time
 				hung = true
+				hangs += string(rune('A' + i))
 				cancelA()
 				cancelB()
 				<-d
@@ -830,8 +832,11 @@ func c09SharedCase(t *testing.T, out *zzverif.Out, rng *zzverif.Rng, dir, tag st
 	}
 	out.Count("shared_result_A_" + res(errA))
 	out.Count("shared_result_B_" + res(errB))
-	out.Case(op, fmt.Sprintf("A: %s res=%s | B: %s res=%s | T: %s", strings.Join(reg.logA, " "), res(errA), strings.Join(reg.logB, " "), res(errB),
-		strings.Join(reg.logT, " ")))
+	if hangs == "" {
+		hangs = "-"
+	}
+	out.Case(op, fmt.Sprintf("A: %s res=%s | B: %s res=%s | T: %s | hang=%s", strings.Join(reg.logA, " "), res(errA), strings.Join(reg.logB, " "), res(errB),
+		strings.Join(reg.logT, " "), hangs))
 	if f, err := os.OpenFile(filepath.Join(zzverif.OutDir(), "tags.txt"), os.O_APPEND|os.O_CREATE|os.O_WRONLY, 0o644); err == nil {
 		fmt.Fprintln(f, tag)
 		f.Close()
